@@ -37,11 +37,12 @@ type StdPkg struct {
 	Renamed      int `json:"kept_renamed"`
 	MergedEnts   int `json:"merged_entities"`
 
-	ReplicaDiff []string          `json:"replica_diff,omitempty"` // files whose printed form differs real vs replica
-	EvalDiff    []string          `json:"eval_diff,omitempty"`
-	Panic       string            `json:"panic,omitempty"`
-	Hazards     []IotaHazard      `json:"hazards,omitempty"`
-	Bundle      map[string]string `json:"bundle,omitempty"`
+	ReplicaDiff      []string          `json:"replica_diff,omitempty"` // files whose printed form differs real vs replica
+	EvalDiff         []string          `json:"eval_diff,omitempty"`
+	Panic            string            `json:"panic,omitempty"`
+	Hazards          []IotaHazard      `json:"hazards,omitempty"`
+	HazardCandidates int               `json:"hazard_candidates"`
+	Bundle           map[string]string `json:"bundle,omitempty"`
 }
 
 func stdRepo() string {
@@ -182,7 +183,16 @@ func crossCheck(repo string, s *build.Session, pkg *build.PackageData, variant s
 		res.OrigEntities += len(entsOf(f))
 	}
 	pred, hazards := evalMerge(efset, eov, eor)
-	res.Hazards = hazards
+	for _, h := range hazards {
+		// a candidate only: it is a refutation if the constant's position in the real result changed
+		before := constPosition(efset, eor[h.FileIdx], h.Victim)
+		after := constPosition(srcs.FileSet, real[len(eov)+h.FileIdx], h.Victim)
+		res.HazardCandidates++
+		if before != after {
+			h.Removed += fmt.Sprintf(" (%s: %q before the merge, %q after)", h.Victim, before, after)
+			res.Hazards = append(res.Hazards, h)
+		}
+	}
 	for i := range real {
 		got := reduceFile(srcs.FileSet, "", real[i], nil)
 		res.MergedEnts += len(got.Ents)
@@ -290,16 +300,17 @@ func StdMain(args []string) int {
 
 // StdSummary goes into the evidence file.
 type StdSummary struct {
-	OverlayDirs    int               `json:"overlay_dirs"`
-	Compared       int               `json:"package_variants_compared"`
-	ComparedPaths  []string          `json:"compared"`
-	Missing        []string          `json:"missing_in_goroot"`
-	Inconclusive   map[string]string `json:"inconclusive"`
-	OrigEntities   int               `json:"original_entities"`
-	Replaced       int               `json:"original_entities_replaced_or_purged"`
-	Renamed        int               `json:"original_entities_kept_renamed"`
-	MergedEntities int               `json:"merged_entities_compared"`
-	FilesCompared  int               `json:"files_compared"`
+	OverlayDirs          int               `json:"overlay_dirs"`
+	Compared             int               `json:"package_variants_compared"`
+	ComparedPaths        []string          `json:"compared"`
+	Missing              []string          `json:"missing_in_goroot"`
+	Inconclusive         map[string]string `json:"inconclusive"`
+	OrigEntities         int               `json:"original_entities"`
+	Replaced             int               `json:"original_entities_replaced_or_purged"`
+	Renamed              int               `json:"original_entities_kept_renamed"`
+	MergedEntities       int               `json:"merged_entities_compared"`
+	FilesCompared        int               `json:"files_compared"`
+	ConstGroupCandidates int               `json:"const_group_override_candidates"`
 }
 
 func runStd(c *core.Ctx) StdSummary {
@@ -347,6 +358,7 @@ func runStd(c *core.Ctx) StdSummary {
 		sum.Renamed += p.Renamed
 		sum.MergedEntities += p.MergedEnts
 		sum.FilesCompared += p.Overlay + p.Original
+		sum.ConstGroupCandidates += p.HazardCandidates
 		key := strings.ReplaceAll(p.Path, "/", "_") + "." + p.Variant
 		if p.Panic != "" {
 			c.Violate("std.panic."+key, fmt.Sprintf("std package %s: augmentation or comparison panicked: %s", id, p.Panic), nil)
